@@ -213,8 +213,9 @@ func (m *model) opClass(want func(id string) bool) string {
 
 // concreteNoTypenameClass is the input class of findingConcreteNoTypename: an object at a
 // concrete-typed position has no string __typename while its selection level contains a fragment
-// on a union (normalization keeps such fragments, so the plan carries type conditions inside an
-// object whose type is statically known, and the upstream query asks for __typename).
+// on an abstract type (normalization keeps fragments on unions and interface fragments with
+// nested fragments, so the plan carries type conditions inside an object whose type is
+// statically known, and the upstream query asks for __typename).
 func (m *model) concreteNoTypenameClass(root *jv) bool {
 	for _, p := range m.positions(root) {
 		if p.t.Elem != nil || p.node == nil || p.node.k != jObj || p.parent == nil {
@@ -227,7 +228,7 @@ func (m *model) concreteNoTypenameClass(root *jv) bool {
 		if tn := p.node.get("__typename"); tn != nil && tn.k == jStr {
 			continue
 		}
-		if m.levelInfo(p.sets, def.Name).unionFrags > 0 {
+		if m.levelInfo(p.sets, def.Name).abstractFrags > 0 {
 			return true
 		}
 	}
